@@ -263,3 +263,5 @@ def run(ctx):
     boundaries.check_amounts(ctx, 'C16.RA', 'C16')
     from .. import boundaries as _b
     _b.check_predicates(ctx, 'C16.RP', 'C16')
+    from .. import boundaries as _b
+    _b.check_updates(ctx, 'C16.RU', 'C16')
